@@ -51,7 +51,7 @@ CONFIG = dict(
                    "`bs` correspondence under both interpreters; proved: the block named for an exit call in progress is the block its POP_BLOCK pops on every "
                    "execution of the block-stack machine (partial: no with-protocol machine for these versions, so exactness of the whole context list, "
                    "the value-stack slot arithmetic of _lowlevel_cpython_310.inspect_frame and the absence of warnings are runtime ground-truth legs; "
-                   "termination and completeness of the walk are theorems (C01_py310_walk_terminates, C01_py310_walk_complete); the oracle also flags any warning on a unit the certificate marks reachable)",
+                   "termination, completeness, crash-freedom on certified code and the composite total-correctness statement are theorems (C01_py310_walk_terminates, _walk_complete, _no_unreachable_warning, _exit_call_resolved); the oracle also flags any warning on a unit the certificate marks reachable)",
                    "inspect_frame's ctypes reads are not modelled; the chain walk and slot arithmetic are (M_Analysis.blocks/slot)"],
     timeout={"quick": 1200, "thorough": 5400},
 )
